@@ -15,3 +15,39 @@ package reactive
 //@ guarded_by dependencySet.mu: dependencies
 //@ guarded_by Rerunner.mu: computation, stop
 //@ guarded_by Rerunner.flushMu: flushed
+
+// ---- region contracts for the windows the property names. Snapshots (ghost) are taken inside the critical section;
+// what a callee that locks the same node internally reported earlier is stale by then (the engine havocs guarded state
+// when a mutex is taken again after such a call).
+//@ func node.Invalidated
+//@   locks n.mu
+
+// addOut: registering `to` as a dependant of n and deciding whether `to` must be invalidated right away are one atomic
+// step: the dependant is invalidated iff the dependency was already invalid when the edge was inserted.
+//@ func node.addOut
+//@   requires n != nil && to != nil
+//@   ghost ninv bool
+//@   ghost tinv bool
+//@   ghost trel bool
+//@   ghost spawnedInv int
+//@   entry ghost spawnedInv = 0
+//@   call Mutex.Lock#2 ghost ninv = n.invalidated
+//@   call Mutex.Lock#2 ghost tinv = to.invalidated
+//@   call Mutex.Lock#2 ghost trel = to.released
+//@   call node.invalidate assert arg0 == to
+//@   call node.invalidate ghost spawnedInv = spawnedInv + 1
+//@   ensures (ninv && !tinv) <==> spawnedInv == 1
+//@   ensures spawnedInv <= 1
+
+// handleInvalidate: either the node is already invalid and the handler is started, or the handler is stored - decided
+// and done in one critical section, so an invalidation cannot slip in between.
+//@ func node.handleInvalidate
+//@   requires n != nil
+//@   maypanic
+//@   ghost inv bool
+//@   ghost spawned int
+//@   entry ghost spawned = 0
+//@   call Mutex.Lock#1 ghost inv = n.invalidated
+//@   call dynamic ghost spawned = spawned + 1
+//@   ensures inv ==> spawned == 1
+//@   ensures !inv ==> spawned == 0
